@@ -206,23 +206,42 @@ def real_loop_parity(ctx, pexpect, n):
             abandon = rng.random() < 0.2 and not close_after
             if abandon:
                 pat = [p for p in pat if p is not pexpect.TIMEOUT]
-            steps.append((data, kind, pat, close_after, rng.random() < 0.5 or abandon, abandon))
+            # how the call is made: entry point (expect compiles, expect_list takes compiled patterns), search window given /
+            # None / left to the object's attribute, timeout given or left to the object's attribute
+            entry = 'exact' if kind == 'exact' else rng.choice(['expect', 'expect', 'list'])
+            kw = {}
+            x = rng.random()
+            if x < 0.2:
+                kw['searchwindowsize'] = None
+            elif x < 0.4:
+                kw['searchwindowsize'] = rng.choice([1, 2, 3])
+            if rng.random() < 0.7:
+                kw['timeout'] = 0.15
+            steps.append((data, kind, pat, close_after, rng.random() < 0.5 or abandon, abandon, entry, kw))
+        attr_w = rng.choice([None, None, 1, 2])
         results = {}
         for how in ('blocking', 'await'):
             r, w = os.pipe()
-            c = fdpexpect.fdspawn(r, timeout=5, encoding='utf-8' if uni else None, codec_errors=errors)
+            c = fdpexpect.fdspawn(r, timeout=5, encoding='utf-8' if uni else None, codec_errors=errors, searchwindowsize=attr_w)
             out = []
+
+            def call(entry, pat, kw):
+                if entry == 'exact':
+                    return c.expect_exact(pat, **kw)
+                if entry == 'list':
+                    return c.expect_list([p if isinstance(p, type) else re.compile(p, re.DOTALL) for p in pat], **kw)
+                return c.expect(pat, **kw)
 
             async def go():
                 nonlocal w
-                for data, kind, pat, close_after, idle, abandon in steps:
+                for data, kind, pat, close_after, idle, abandon, entry, kw in steps:
+                    c.timeout = 5
                     if abandon:
-                        fn = c.expect_exact if kind == 'exact' else c.expect
                         try:
                             if how == 'await':
-                                idx = await asyncio.wait_for(fn(pat, timeout=5, async_=True), 0.1)
+                                idx = await asyncio.wait_for(call(entry, pat, dict(kw, timeout=5, async_=True)), 0.1)
                             else:
-                                idx = fn(pat, timeout=0.1)
+                                idx = call(entry, pat, dict(kw, timeout=0.1))
                             out.append(('ret', idx, c.before, c.after if not isinstance(c.after, type) else c.after.__name__, c.buffer))
                         except (asyncio.TimeoutError, pexpect.TIMEOUT):
                             out.append(('abandoned',))
@@ -242,12 +261,12 @@ def real_loop_parity(ctx, pexpect, n):
                             await asyncio.sleep(0.05)
                         else:
                             time.sleep(0.01)
-                    fn = c.expect_exact if kind == 'exact' else c.expect
+                    c.timeout = 0.15           # what a call without its own timeout falls back on
                     try:
                         if how == 'await':
-                            idx = await fn(pat, timeout=0.15, async_=True)
+                            idx = await call(entry, pat, dict(kw, async_=True))
                         else:
-                            idx = fn(pat, timeout=0.15)
+                            idx = call(entry, pat, kw)
                         out.append(('ret', idx, c.before, c.after if not isinstance(c.after, type) else c.after.__name__, c.buffer))
                     except pexpect.EOF:
                         out.append(('EOF', None, c.before, None, c.buffer))
@@ -281,7 +300,8 @@ def real_loop_parity(ctx, pexpect, n):
         tried += 1
         if results['blocking'] != results['await']:
             ctx.hit('C14/parity', 'same writes, same calls: blocking gives %r, awaited gives %r' % (results['blocking'], results['await']),
-                    {'steps': [(repr(d), k, [p if isinstance(p, (str, bytes)) else p.__name__ for p in pat], cl, idle, ab) for d, k, pat, cl, idle, ab in steps], 'unicode': uni, 'codec_errors': errors})
+                    {'steps': [(repr(d), k, [p if isinstance(p, (str, bytes)) else p.__name__ for p in pat], cl, idle, ab, entry, repr(kw)) for d, k, pat, cl, idle, ab, entry, kw in steps],
+                     'unicode': uni, 'codec_errors': errors, 'searchwindowsize_attr': attr_w})
             return
     ctx.oracle_stats['real_loop_scenarios'] = tried
 
